@@ -50,7 +50,11 @@ fn main() {
             let cap = p(8);
             std::thread::spawn(move || {
                 std::thread::sleep(Duration::from_secs(cap + 300));
-                eprintln!("HARNESS-ERROR: worker watchdog: a run did not return {} s after the wall-clock cap", 300);
+                {
+                    use std::io::Write;
+                    let _ = writeln!(std::io::stderr(), "HARNESS-ERROR: worker watchdog: a run did not return {} s after the wall-clock cap", 300);
+                    let _ = writeln!(std::io::stdout(), "HARNESS-ERROR: worker watchdog");
+                }
                 std::process::exit(3);
             });
             let out = engine::worker(scn.as_ref(), tier, p(4), p(5), p(6), p(7), Duration::from_secs(p(8)));
